@@ -47,6 +47,7 @@ class Session(object):
 
     def call(self, op, tag="raw"):
         a = self.impl.apply(op)
+        aliased = a.pop("aliased", [])      # engine-only observation (Python object identity); not compared
         self.tags.append(tag)
         self.inflight_log.append(sorted(self.inflight, key=repr))
         self.active_log.append(sorted((k for k in self.inflight if self.last_reported.get(k) not in ("paused", "pending")),
@@ -57,6 +58,7 @@ class Session(object):
             if d is not None:
                 self.trace.append((op, a))
                 raise Divergence({"step": len(self.trace) - 1, "op": op, "diff": d})
+        a["aliased"] = aliased
         self.trace.append((op, a))
         return a
 
